@@ -16,7 +16,7 @@ from pmon.gen import trees as T, models as M
 ID = 'C19'
 RULE = ('triple lists from graphs decoded from WF-T trees (null targets removed, anonymous role '
         'removed) and seeded random lists (targets: symbols, numbers, quoted strings with blanks, '
-        'commas, parentheses, ^, escapes; roles with and without colon) x indent in {True, False}, '
+        'commas, parentheses, ^, escapes, random strings over ( ) , ^ blank quote backslash; symbols containing commas such as 1,000; roles with and without colon) x indent in {True, False}, '
         'through penman.format_triples/parse_triples and the codec methods; all 12 spacing variants '
         '{"a,b" "a, b" "a ,b" "a , b"} x {"x^y" "x ^y" "x ^ y"} of each 2-triple conjunction. '
         'Non-trivial: the list has >=2 triples and a quoted-string target.')
@@ -26,7 +26,13 @@ REQUIRED_COUNTERS = ['string_targets', 'variants']
 SRCS = ['a', 'b', 'x1', '_', 'n-0', '\u03b5', 'b.c']
 ROLES = [':instance', ':ARG0', ':ARG1-of', ':mod', ':op10', 'polarity', ':x-y', ':\u00e9t\u00e9', ':a.b']
 TGTS = ['b', 'x1', '7', '-1.5', '-', '+', 'foo-01', '"x"', '"a b"', '"(p)"', '"a, b"', '"^"', '"q ^ r"',
-        '"\\"q\\""', '"a,b)"', '"#"', '""', '"\\\\"', '"\u00e9\u3000"', '0', '1e3', 'c.d', "it's", '"~1"']
+        '"\\"q\\""', '"a,b)"', '"#"', '""', '"\\\\"', '"\u00e9\u3000"', '0', '1e3', 'c.d', "it's", '"~1"',
+        '1,000', 'c,d', '1,000,000', '"f(x)^2 + g(y) ^ 3"', '"a) ^ b"', '")^"', '"x) ^\\" y"', '"(a , b) ^ (c ,d)"']
+QCHARS = ['(', ')', ',', '^', ' ', 'a', '\\"', '\\\\', '~', ':', '#', '\t', '.']
+
+
+def rand_string_target(rng):
+    return '"' + ''.join(rng.choice(QCHARS) for _ in range(rng.randrange(0, 9))) + '"'
 
 
 def cases(ctx):
@@ -94,7 +100,9 @@ def oracle(ctx, kind, p):
              and ',' not in s and not s.startswith('^') and not t.startswith(',')]
         L = [(s, r, t) for s, r, t in L if t.startswith('"') or not any(c in t for c in '(),^')]
     else:
-        L = [(rng.choice(SRCS), rng.choice(ROLES), rng.choice(TGTS)) for _ in range(rng.randrange(1, 7))]
+        L = [(rng.choice(SRCS), rng.choice(ROLES),
+              rand_string_target(rng) if rng.random() < 0.3 else rng.choice(TGTS))
+             for _ in range(rng.randrange(1, 7))]
     if not L:
         return
     ctx.current = ['list', {'L': [list(t) for t in L]}]
@@ -103,8 +111,8 @@ def oracle(ctx, kind, p):
     strings = sum(1 for t in L if t[2].startswith('"'))
     if strings:
         ctx.count('string_targets')
-    if len(L) >= 2 and p['i'] % 3 == 0:
-        t1, t2 = L[0], L[1]
+    if len(L) >= 2:
+        t1, t2 = rng.sample(L, 2)
         check_variants(ctx, t1, t2, det)
     ctx.case(L, len(L) >= 2 and strings > 0)
     if ctx.want_sample() and strings and len(L) >= 3:
